@@ -519,7 +519,7 @@ pub fn validate(prog: &Program) -> Result<(), String> {
                 TAct::Resume(o, _) | TAct::HandResumer(o) => { open_res.retain(|x| x != o); }
                 TAct::ReleaseMortal => { if nb_only { return Err(format!("thread {} drops its owner inside a non-blocking window", t)); } released = true; }
                 TAct::PipeCreate(_) | TAct::Consume(..) => { if nb_only { return Err("pipe act in non-blocking window".into()); } }
-                TAct::DropStream(_) | TAct::Push(_) => {}
+                TAct::DropStream(_) | TAct::Push(_) | TAct::Attempt(..) | TAct::AttemptJoin(_) | TAct::Stash(_) | TAct::WaitStart(_) => {}
             }
         }
         if !open_fs.is_empty() || !open_res.is_empty() { return Err(format!("thread {} ends with open future_sync/resumer", t)); }
